@@ -209,7 +209,19 @@ def run(ctx, report):
         d = (text[105], text[3], text[104])
         data = ''.join(r[2] for r in rows).replace(d[0], '').replace(d[1], '').replace(d[2], '')
         if d != ('~', '*', ':') and any(c in data for c in '~*:'):
-            report.count('roundtrip:skipped-data-contains-target-delimiters')
+            # the converter always writes with ~ * : — data that holds one of them cannot come back as the same elements: judged on
+            # the element structure (recorded finding), not skipped
+            report.count('roundtrip:data-contains-the-output-delimiters')
+            back, exn2 = convert_back(xml_text)
+            import pyx12.x12file as _xf
+            try:
+                got_s = [[sg_.get_seg_id()] + [[c_.get_value() for c_ in el_.elements] for el_ in sg_.elements] for sg_ in _xf.X12Reader(io.StringIO(back))]
+            except Exception as ex_:  # noqa
+                got_s = 'reader raised %s' % type(ex_).__name__
+            want_s = [[sg_.get_seg_id()] + [[c_.get_value() for c_ in el_.elements] for el_ in sg_.elements] for sg_ in _xf.X12Reader(io.StringIO(text))]
+            if exn2 or got_s != want_s:
+                report.fail('C08:roundtrip:data-contains-the-output-delimiters', 'a document written with %r whose data holds one of ~ * : does not come back '
+                            'as the same elements (%s)' % (d, exn2 or ('%s segments back, %d in the source' % (len(got_s) if isinstance(got_s, list) else got_s, len(want_s)))), inp)
             return
         back, exn2 = convert_back(xml_text)
         if exn2:
@@ -253,6 +265,18 @@ def run(ctx, report):
         except Exception:  # noqa
             continue
         cases.append(('dense', 'dense map=%s' % name, docgen.encode(segs, d, '')))
+        if name.startswith('837.4010.X098'):
+            # the same document in other delimiters with one name that holds the converter's fixed output delimiters
+            d2 = ('!', '|', '>')
+            segs2 = [x.replace('*', '|').replace(':', '>') for x in segs]
+            for j_, x in enumerate(segs2):
+                if x.startswith('NM1|') and len(x.split('|')) > 3 and x.split('|')[3]:
+                    pp_ = x.split('|')
+                    pp_[3] = 'A*B:C~D'
+                    segs2[j_] = '|'.join(pp_)
+                    break
+            segs2[0] = docgen.isa(segs[0].split('*')[13], d2, segs[0].split('*')[12])
+            cases.append(('dense', 'dense map=%s other delimiters, data with ~ * :' % name, docgen.encode(segs2, d2, '')))
         # the same document with blanks around / instead of composite components and simple values (values are data: they
         # must come back character for character)
         padded = []
